@@ -19,7 +19,7 @@ Layout of the canonical text:
   explicit `group` node of the tree, printed `"(" ++ inner ++ ")"`;
 * unary node: `op ++ operand` (`!x`, `-x`, `--x`, `-5`);
 * call: `name(arg, arg, …)`, `name()` without arguments;
-* variable: the identifier itself if it matches `[A-Za-z_]\w*` (ASCII), otherwise the bracketed form `[name]` with `\` and
+* variable: the identifier itself if it matches `[A-Za-z_]\w*` (Unicode `\w`), otherwise the bracketed form `[name]` with `\` and
   `]` escaped by a backslash;
 * number: decimal numeral of the exact rational: `123`, `1.5`, `0.001` (no sign, no exponent, shortest fraction);
 * string: single quotes, `\` and `'` escaped by a backslash (every other character, newline included, verbatim).
@@ -80,7 +80,7 @@ def escape (q : Char) : List Char → List Char
 string is printable -/
 def printStr (s : String) : List Char := '\'' :: (escape '\'' s.toList ++ ['\''])
 
-/-- `[A-Za-z_]\w*` (ASCII `\w`, as in `ExprScan`) -/
+/-- `[A-Za-z_]\w*` (Unicode `\w`, as in `ExprScan`) -/
 def isIdent : List Char → Bool
   | [] => false
   | c :: w => isIdStart c && w.all isWord
